@@ -1692,7 +1692,10 @@ namespace awkward {
 
       ContentPtrVec contents;
       for (auto content : contents_) {
-        contents.push_back(content.get()->getitem_next(head,
+        // fields may be longer than the record array; 'advanced' has one
+        // entry per record
+        ContentPtr trimmed = content.get()->getitem_range_nowrap(0, length());
+        contents.push_back(trimmed.get()->getitem_next(head,
                                                        emptytail,
                                                        advanced));
       }
